@@ -12,7 +12,7 @@ import numpy as np
 
 from vlib.core import Result, pmap, merge_results, SEED, quiet, load_known
 from vlib import geom
-from vlib.grids import position_grid, dense
+from vlib.grids import snapshot, scribble, position_grid, dense
 
 T_GRIDS = ["[0.3]", "[0.2, 0.35]", "[0.15, 0.3, 0.4]", "linspace(0.2, 0.8, 4)", "[0.1, 0.5]", "[0.314, 0.333, 0.507]", "[0.2718]",
            "[0.001, 0.0025]", "[2.5, 4.0, 4.5]", "[0.2, 0.3001, 0.4]", "linspace(0.1, 0.2, 8)",
@@ -35,25 +35,47 @@ def judge(case):
     """Returns list of (tag, message)."""
     o, t = case["o"], case["t"]
     out = []
+    from vlib.core import digest
+    # what the process did before (varies from grid to grid): nothing, or the default-mode (spherical shell) variant of the
+    # very same direction / radial grids was queried - as a position grid or inside a full grid. It is judged by C05, not
+    # here; the Cartesian grid built afterwards must not depend on it.
+    warm = (None, "spherical_position_grid", "spherical_full_grid")[int(digest([t, o]), 16) % 3]
+    if warm:
+        try:
+            with quiet():
+                if warm == "spherical_position_grid":
+                    other = position_grid(o, t, cartesian=False)
+                    for f in (other.get_all_position_volumes, other.get_adjacency_of_position_grid,
+                              other.get_borders_of_position_grid, other.get_distances_of_position_grid):
+                        f()
+                else:
+                    from vlib.grids import full_grid
+                    other = full_grid("zero4D_1", o, t, cartesian=False)
+                    for f in (other.get_total_volumes, other.get_full_adjacency, other.get_full_borders, other.get_full_distances):
+                        f()
+        except Exception:
+            pass
     try:
         pg = position_grid(o, t, cartesian=True)
-        getters = {"volumes": lambda: np.asarray(pg.get_all_position_volumes(), dtype=float),
+        getters = {"volumes": lambda: np.array(pg.get_all_position_volumes(), dtype=float),
                    "adjacency": pg.get_adjacency_of_position_grid, "borders": pg.get_borders_of_position_grid,
                    "distances": pg.get_distances_of_position_grid}
         import itertools
-        from vlib.core import digest
         orders = list(itertools.permutations(sorted(getters)))
         order = orders[int(digest([o, t]), 16) % len(orders)]   # a getter order that varies from grid to grid
         with quiet():
-            first = {name: getters[name]() for name in order}
+            handed = {name: getters[name]() for name in order}
+            first = {name: snapshot(handed[name]) for name in order}
             vol, adj_sp, bor_sp, dis_sp = first["volumes"], first["adjacency"], first["borders"], first["distances"]
             pts = np.asarray(pg.get_position_grid_as_array(), dtype=float)
             dirs = np.asarray(pg.get_o_grid().get_grid_as_array(), dtype=float)
+            for name in order:      # the caller edits what it was handed in place (units, masking) before asking again
+                scribble(handed[name])
             again = {name: getters[name]() for name in reversed(order)}
         for name in order:
             a, b2 = (dense(first[name]), dense(again[name])) if name != "volumes" else (first[name], again[name])
             if a.shape != b2.shape or not np.array_equal(np.asarray(a, dtype=float), np.asarray(b2, dtype=float)):
-                return [("history", f"{o} {t}: {name} differ between the first and a second query on the same grid (order {list(order)})")], {}
+                return [("history", f"{o} {t}: {name} differ between the first query and a second one on the same grid, made after the caller edited the first results in place (order {list(order)})")], {}
     except Exception as e:
         return [("exception", f"{o} {t}: {type(e).__name__}: {e}")], {}
     r = radii_of(t)
@@ -131,6 +153,9 @@ def _one(case):
     found, info = judge(case)
     N = int(case["o"].split("_")[1])
     classes = [f"alg={case['o'].split('_')[0]}", f"T={len(radii_of(case['t']))}"]
+    from vlib.core import digest
+    if int(digest([case["t"], case["o"]]), 16) % 3:
+        classes.append("after_spherical_variant_of_same_grids")
     if info.get("faces_centrally_symmetric"):
         classes.append("has_centrally_symmetric_face")
     res.extra["faces_judged"] = info.get("faces", 0)
@@ -178,7 +203,7 @@ def run(tier):
     res.violations.sort(key=lambda v: int(v["case"]["o"].split("_")[1]))
     rule = ("enumeration of direction grids (ico, cube3D, randomS; " + ("N in 4..30, 42, 43, 50, 60, 98/100/162 and seeded N"
             if tier == "quick" else "every N in 4..100, 161-163, 200, 300") + f") x radial grids {T_GRIDS} (1..4 radii); every cell volume, "
-            "every adjacent pair's face and distance judged. Non-trivial = grid with at least one face of >=5 vertices; "
+            "every adjacent pair's face and distance judged; for two thirds of the grids the default-mode variant of the same grids (position grid or full grid) is queried first in the same process. Non-trivial = grid with at least one face of >=5 vertices; "
             "distinct = distinct (direction grid, radial grid). Centrally symmetric faces (the order_points trigger) are counted.")
     return res, rule, {"assumptions": ["pairs judged are those on the library's adjacency pattern (the shell pattern), as the "
                                        "property states borders/distances 'on the same pattern as the adjacency'"]}
